@@ -165,6 +165,10 @@ def battery(ctx, prop, exh_len, n_prog, n_soup, tower_depth=128, list_len=2000, 
             else:
                 t = "\ufeff" + v
             texts.append(t)
+        # numeric and #-literals at and beyond every machine-integer boundary
+        for big in ("255", "256", "65535", "65536", "4294967295", "4294967296", "18446744073709551615", "18446744073709551616",
+                    "99999999999999999999999999", "0" * 40, "1e400", "0x" + "F" * 20, "1." + "9" * 30):
+            texts += ["#%s" % big, "x = #%s + %s" % (big, big), "const c = %s" % big, "proc P\n a[#%s] = '%s'\nendproc" % (big, big)]
         for l in texts_to_lines(ctx, texts):
             add(l, "text")
     return lines, labels
